@@ -27,11 +27,17 @@ def init_worker(repo, cfg, isolation="reimport"):
     _STATE["cache"] = {}
     _STATE["cache_hits"] = 0
     _STATE["cache_misses"] = 0
+    if isolation == "fork":
+        # import (never call into) the package once in the zygote; every forked
+        # child uses this never-executed module set directly (re-executing the
+        # module bodies in each child costs ~45 ms of copy-on-write faults here)
+        _STATE["zygote_pyc"] = loader.fresh()
 
 
 def _exec_child(arg):
     spec, keep_full = arg
-    return engine.execute(loader.fresh(), spec, keep_full=keep_full)
+    pyc = _STATE.get("zygote_pyc") or loader.fresh()
+    return engine.execute(pyc, spec, keep_full=keep_full)
 
 
 def run_spec(spec, keep_full=True, timeout=None):
@@ -54,6 +60,9 @@ def run_spec(spec, keep_full=True, timeout=None):
 def set_isolation(mode):
     _STATE["isolation"] = mode
     _STATE["cache"] = {}
+    if mode != "fork":
+        # this process is going to execute pycparser itself: no longer a zygote
+        _STATE.pop("zygote_pyc", None)
 
 
 def baseline(key, spec):
@@ -141,6 +150,7 @@ def _one_run(prop, seed, index, cfg, t0):
         summ.update(
             {
                 "sweep": "sweep_case" in spec,
+                "isolation": _STATE["isolation"],
                 "index": index,
                 "ok": not viols,
                 "violations": viols,
